@@ -167,8 +167,10 @@ class DeterministicOde(BaseOdeModel):
             # corresponding canary is dead (True) indicating underlying ODE's have changed and
             # we need to update both the sympy and compiled objects.
             if not hasattr(self, compiled_obj_name) or getattr(self._hasNewTransition, method_name):
-                # Make new sympy object and compiled it
-                self.add_compiled_sympy_object(method_name, compiled_obj_name, sympy_obj_generator_func, oT, is_master_canary)
+                # Make new sympy object and compiled it.  The generator is looked up on the object this
+                # evaluator is bound to: a deep copy of a model assembles its own equations
+                generator = getattr(self, getattr(sympy_obj_generator_func, '__name__', ''), sympy_obj_generator_func)
+                self.add_compiled_sympy_object(method_name, compiled_obj_name, generator, oT, is_master_canary)
             return getattr(self, compiled_obj_name)(time=t, state=state)
         setattr(self, method_name, func.__get__(self))
 
